@@ -170,8 +170,8 @@ func (e *c06env) runSchedule(scripts [][]c06op, sched []int, style int) c06resul
 		pos[t]++
 		trace = append(trace, fmt.Sprintf("T%d.%s", t+1, op))
 		switch op.kind {
-		case "begin":
-			tx, err := e.db.NewTxn(e.ctx, false)
+		case "begin", "beginro":
+			tx, err := e.db.NewTxn(e.ctx, op.kind == "beginro")
 			if err != nil {
 				return fail("harness", "NewTxn: %v", err)
 			}
@@ -379,6 +379,16 @@ func runC06(args []string) int {
 		plans = append(plans, plan{"2 txns: m=2 x m=1", [][][]c06op{c06Scripts(2, pick(0, 2, 4, 5, 6)), c06Scripts(1, pick(1, 2, 3, 4, 5, 6))}})
 		plans = append(plans, plan{"3 txns: m=1 each (writes)", [][][]c06op{commitOnly(c06Scripts(1, pick(2, 4))), commitOnly(c06Scripts(1, pick(2, 4))), c06Scripts(1, pick(2, 5))}})
 	}
+	// a read-only transaction (NewTxn(ctx, true)) reading twice while a writing transaction commits
+	var roScripts [][]c06op
+	for _, r1 := range []c06op{{"q", "d0"}, {"qall", ""}} {
+		for _, r2 := range []c06op{{"q", "d0"}, {"qall", ""}, {"q", "n"}} {
+			for _, end := range []string{"commit", "discard"} {
+				roScripts = append(roScripts, []c06op{{kind: "beginro"}, r1, r2, {kind: end}})
+			}
+		}
+	}
+	plans = append(plans, plan{"read-only txn (2 reads) x writing txn m=1", [][][]c06op{roScripts, commitOnly(c06Scripts(1, pick(2, 4, 5, 6)))}})
 	type job struct {
 		scripts [][]c06op
 		sched   []int
